@@ -20,15 +20,22 @@
 (* finding C13-schema-buffer.                                              *)
 (***************************************************************************)
 EXTENDS Naturals, Integers, FiniteSets, TLC
-CONSTANTS Docs, TreeSizes, FixSchemaLeak   \* FixSchemaLeak = TRUE: model of a repaired allocateSchemaStringBuffer
-VARIABLES doc, orphans, dangling, nlive, last
-vars == <<doc, orphans, dangling, nlive, last>>
+CONSTANTS Docs, TreeSizes, FixSchemaLeak,  \* FixSchemaLeak = TRUE: model of a repaired allocateSchemaStringBuffer
+          SlotStringsOwned           \* TRUE (the code): a string that lands in an existing slot is copied (SetString(s, alloc));
+                                     \* FALSE: it is stored as a borrowed view of schema_str_ (a design that is shown to dangle)
+VARIABLES doc, orphans, dangling, nlive, last,
+          snap      \* a free-standing deep copy of some document's tree, in another allocator:
+                    \* [on, src, ref]; ref = it shares bytes with the schema buffer now owned by document src
+vars == <<doc, orphans, dangling, nlive, last, snap>>
+NoSnap == [on |-> FALSE, src |-> 0, ref |-> FALSE]
+\* the copy loses bytes when the schema buffer of document x is released
+Rel(x) == snap.on /\ snap.ref /\ snap.src = x
 
-Empty == [alive |-> TRUE, tree |-> 0, str |-> FALSE, sch |-> FALSE, refstr |-> FALSE, refsch |-> FALSE]
+Empty == [alive |-> TRUE, tree |-> 0, str |-> FALSE, sch |-> FALSE, refstr |-> FALSE, refsch |-> FALSE, slotc |-> FALSE]
 B(x) == IF x THEN 1 ELSE 0
 Held(d) == IF doc[d].alive THEN doc[d].tree + B(doc[d].str) + B(doc[d].sch) ELSE 0
 
-Init == /\ doc = [d \in Docs |-> Empty] /\ orphans = 0 /\ dangling = FALSE /\ nlive = 0
+Init == /\ doc = [d \in Docs |-> Empty] /\ orphans = 0 /\ dangling = FALSE /\ nlive = 0 /\ snap = NoSnap
         /\ last = [op |-> "init"]
 
 \* Parse / ParseOnDemand (:129-170, :207-225): destroyDom releases tree, str_, schema_str_; a new str_ is
@@ -36,9 +43,10 @@ Init == /\ doc = [d \in Docs |-> Empty] /\ orphans = 0 /\ dangling = FALSE /\ nl
 Parse(d, ok, k) ==
   /\ doc[d].alive
   /\ doc' = [doc EXCEPT ![d] = [alive |-> TRUE, tree |-> IF ok THEN k ELSE 0, str |-> TRUE, sch |-> FALSE,
-                                refstr |-> ok /\ k > 0, refsch |-> FALSE]]
+                                refstr |-> ok /\ k > 0, refsch |-> FALSE, slotc |-> FALSE]]
   /\ nlive' = nlive - Held(d) + 1 + (IF ok THEN k ELSE 0)
-  /\ UNCHANGED <<orphans, dangling>>
+  /\ dangling' = (dangling \/ (doc[d].sch /\ Rel(d)))
+  /\ UNCHANGED <<orphans, snap>>
   /\ last' = [op |-> "parse", d |-> d, ok |-> ok, k |-> k]
 
 \* ParseSchema (:227-242): no destroy; a new schema_str_ is allocated over the old pointer; matched members
@@ -47,10 +55,12 @@ ParseSchema(d, ok, k) ==
   /\ doc[d].alive
   /\ LET hadsch == doc[d].sch
          leak == hadsch /\ ~FixSchemaLeak IN
-     /\ doc' = [doc EXCEPT ![d].tree = k, ![d].sch = TRUE, ![d].refsch = (doc[d].refsch \/ k > 0)]
+     /\ doc' = [doc EXCEPT ![d].tree = k, ![d].sch = TRUE, ![d].refsch = (doc[d].refsch \/ k > 0),
+                            ![d].slotc = (doc[d].slotc \/ (k > 0 /\ ~SlotStringsOwned))]
      /\ orphans' = orphans + B(leak)
      \* a repaired version may only release the old buffer if no node points into it
-     /\ dangling' = (dangling \/ (hadsch /\ FixSchemaLeak /\ doc[d].refsch))
+     /\ dangling' = (dangling \/ (hadsch /\ FixSchemaLeak /\ (doc[d].refsch \/ Rel(d))))
+     /\ UNCHANGED snap
      /\ nlive' = nlive - doc[d].tree + k + 1 - B(hadsch /\ FixSchemaLeak)
   /\ last' = [op |-> "parseschema", d |-> d, ok |-> ok, k |-> k]
 
@@ -59,11 +69,14 @@ Move(a, b) ==
   /\ a # b /\ doc[a].alive /\ doc[b].alive
   /\ doc' = [doc EXCEPT ![a] = doc[b], ![b] = [Empty EXCEPT !.alive = FALSE]]     \* b: allocator pointer cleared
   /\ nlive' = nlive - Held(a)
-  /\ UNCHANGED <<orphans, dangling>>
+  /\ dangling' = (dangling \/ (doc[a].sch /\ Rel(a)))
+  /\ snap' = IF snap.on /\ snap.src = b THEN [snap EXCEPT !.src = a] ELSE snap
+  /\ UNCHANGED orphans
   /\ last' = [op |-> "move", a |-> a, b |-> b]
 Swap(a, b) ==
   /\ a # b /\ doc[a].alive /\ doc[b].alive
   /\ doc' = [doc EXCEPT ![a] = doc[b], ![b] = doc[a]]
+  /\ snap' = IF snap.on /\ snap.src = a THEN [snap EXCEPT !.src = b] ELSE IF snap.on /\ snap.src = b THEN [snap EXCEPT !.src = a] ELSE snap
   /\ UNCHANGED <<orphans, dangling, nlive>>
   /\ last' = [op |-> "swap", a |-> a, b |-> b]
 \* a mutation through the node API: the tree gains or loses blocks
@@ -71,19 +84,32 @@ Mutate(d, k) ==
   /\ doc[d].alive
   /\ doc' = [doc EXCEPT ![d].tree = k]
   /\ nlive' = nlive - doc[d].tree + k
-  /\ UNCHANGED <<orphans, dangling>>
+  /\ UNCHANGED <<orphans, dangling, snap>>
   /\ last' = [op |-> "mutate", d |-> d, k |-> k]
 \* destructor (:99, :192-205), then a fresh document in its place
 Recreate(d) ==
   /\ doc' = [doc EXCEPT ![d] = Empty]
   /\ nlive' = nlive - Held(d)
-  /\ UNCHANGED <<orphans, dangling>>
+  /\ dangling' = (dangling \/ (doc[d].alive /\ doc[d].sch /\ Rel(d)))
+  /\ UNCHANGED <<orphans, snap>>
   /\ last' = [op |-> "recreate", d |-> d]
+\* a deep copy of the tree into a free-standing node of another allocator (copy constructor, :74-127): views into the
+\* document's buffers are copied, borrowed (const) strings are shared with whoever owns their bytes
+CopyOut(d) ==
+  /\ doc[d].alive
+  /\ snap' = [on |-> TRUE, src |-> d, ref |-> (doc[d].slotc /\ doc[d].sch)]
+  /\ UNCHANGED <<doc, orphans, dangling, nlive>>
+  /\ last' = [op |-> "copyout", d |-> d]
+DropCopy ==
+  /\ snap.on /\ snap' = NoSnap
+  /\ UNCHANGED <<doc, orphans, dangling, nlive>>
+  /\ last' = [op |-> "dropcopy", d |-> 0]
 
 Next == \/ \E d \in Docs, ok \in BOOLEAN, k \in TreeSizes : Parse(d, ok, k) \/ ParseSchema(d, ok, k)
         \/ \E a, b \in Docs : Move(a, b) \/ Swap(a, b)
         \/ \E d \in Docs, k \in TreeSizes : Mutate(d, k)
-        \/ \E d \in Docs : Recreate(d)
+        \/ \E d \in Docs : Recreate(d) \/ CopyOut(d)
+        \/ DropCopy
 Spec == Init /\ [][Next]_vars
 
 HeldAll == LET S == {d \in Docs : doc[d].alive} IN
